@@ -6,10 +6,13 @@
      - what a constructor returns passes the verification routine (C18_*_verifies);
      - residuals and all four subframe kinds then serialise on either in-memory sink without a
        panicking outcome to exactly the number of bits they report (C18_residual, C18_subframes).
-   PARTIAL: "parses back to an identical component", and the frame / header / stream-info / metadata
-   serialisation, are validated against the implementation and the parser model by the CTOR stream
-   (count_bits = bits written, bytes equal, parse-back identical) but not proved. *)
-From FV Require Import Model.Base Model.Sink Model.Rice Model.Predict Model.Component Model.Ctor Proofs.CtorP.
+     - residuals and all four subframe kinds, serialised by the byte sink, are read back by the
+       parser model as the identical component (C18_residual_parses_back, C18_subframe_parses_back).
+   PARTIAL: the frame / header / stream-info / metadata serialisation and parse-back are validated
+   against the implementation and the parser model by the CTOR stream (count_bits = bits written,
+   bytes equal, parse-back identical) but not proved. *)
+From FV Require Import Model.Base Model.Sink Model.Rice Model.Predict Model.Component Model.Flac Model.Parser Model.Ctor
+  Proofs.CtorP Proofs.ParseResidual Proofs.ParseSubframe.
 Local Open Scope N_scope.
 
 Theorem C18_total :
@@ -63,3 +66,17 @@ Theorem C18_verified_subframe_serialises : forall s, sub_typed s -> verify_subfr
   forall k, exists snk, run k (subframe_ops s) = Ok snk /\ blen snk = subframe_count_bits s.
 Proof. exact subframe_ctor_serialises. Qed.
 Print Assumptions C18_verified_subframe_serialises.
+
+(* parse-back: what the byte sink exports for a verified residual / subframe is read back by the parser
+   as the identical component.  quot_u32 is the type of the quotients in the code (u32). *)
+Theorem C18_residual_parses_back : forall (r : residual) (bytes : list N),
+  verify_residual r = true -> quot_u32 r -> pack KU8 (residual_ops r) = Ok bytes ->
+  exists r', p_residual (r_block r) (r_warmup r) (rd_of bytes) = Some (r, r').
+Proof. exact residual_parse_back. Qed.
+Print Assumptions C18_residual_parses_back.
+
+Theorem C18_subframe_parses_back : forall (s : subframe) (bytes : list N),
+  verify_subframe s = true -> sub_typed s -> sub_quot_u32 s -> pack KU8 (subframe_ops s) = Ok bytes ->
+  exists r', p_subframe (sub_block s) (sub_bps s) (rd_of bytes) = Some (s, r').
+Proof. exact subframe_parse_back. Qed.
+Print Assumptions C18_subframe_parses_back.
